@@ -1,6 +1,7 @@
 package chainsim
 
 import (
+	"os"
 	"crypto/ecdsa"
 	"crypto/sha256"
 	"fmt"
@@ -304,6 +305,19 @@ func (w *World) Mine(n *Node, coinbase common.Address, start uint64, wantOrder i
 	w.Blocks[bi.Hash] = bi
 	w.Tips = append(w.Tips, bi.Hash)
 	w.Tr.Event("mined n=%s #%d order=%d hash=%x txs=%d etxs=%d", n.Cfg.Name, bi.Number, order, bi.Hash[:6], len(blk.Transactions()), len(blk.OutboundEtxs()))
+	if os.Getenv("VERIF_TRACE") != "" {
+		for i, tx := range blk.Transactions() {
+			w.Tr.Event("   tx[%d] type=%d hash=%x", i, tx.Type(), tx.Hash().Bytes()[:6])
+		}
+		for i, tx := range blk.OutboundEtxs() {
+			w.Tr.Event("   etx[%d] etype=%d hash=%x val=%v", i, tx.EtxType(), tx.Hash().Bytes()[:6], tx.Value())
+		}
+		h := blk.Header()
+		wh := blk.WorkObjectHeader()
+		w.Tr.Event("   woh seal=%x hdrhash=%x nonce=%x txhash=%x pent=%v lock=%d time=%d diff=%v ptn=%v cb=%x data=%x", wh.SealHash().Bytes()[:4], wh.HeaderHash().Bytes()[:4], wh.Nonce(), wh.TxHash().Bytes()[:4], blk.ParentEntropy(2), wh.Lock(), wh.Time(), wh.Difficulty(), wh.PrimeTerminusNumber(), wh.PrimaryCoinbase().Bytes()[:3], wh.Data())
+		w.Tr.Event("   hdr2 pde=%v,%v,%v pude=%v manifest=%x etxhash=%x etxrollup=%x uncle=%x receipt=%x exch=%v kqd=%v cfa=%v mdiff=%v interlink=%x extra=%x expn=%d elig=%x avgfee=%v totfee=%v statelimit=%d eff=%d thr=%d uent=%v psr=%x rsr=%x pth=%x", h.ParentDeltaEntropy(0), h.ParentDeltaEntropy(1), h.ParentDeltaEntropy(2), h.ParentUncledDeltaEntropyArray(), h.ManifestHashArray(), h.OutboundEtxHash().Bytes()[:4], h.EtxRollupHash().Bytes()[:4], h.UncleHash().Bytes()[:4], h.ReceiptHash().Bytes()[:4], h.ExchangeRate(), h.KQuaiDiscount(), h.ConversionFlowAmount(), h.MinerDifficulty(), h.InterlinkRootHash().Bytes()[:4], h.Extra(), h.ExpansionNumber(), h.EtxEligibleSlices().Bytes()[:4], h.AvgTxFees(), h.TotalFees(), h.StateLimit(), h.EfficiencyScore(), h.ThresholdCount(), h.UncledEntropy(), h.PrimeStateRoot().Bytes()[:4], h.RegionStateRoot().Bytes()[:4], h.PrimeTerminusHash().Bytes()[:4])
+		w.Tr.Event("   hdr evm=%x utxo=%x etxset=%x gasUsed=%d time=%d base=%v stateUsed=%d", h.EVMRoot().Bytes()[:4], h.UTXORoot().Bytes()[:4], h.EtxSetRoot().Bytes()[:4], h.GasUsed(), blk.Time(), h.BaseFee(), h.StateUsed())
+	}
 	if err := w.Deliver(n, bi); err != nil {
 		return bi, err
 	}
